@@ -27,13 +27,24 @@ def run(tier, seed, repo):
             return "self._save_state()"
         return None
 
+    def sql_read(n):
+        if isinstance(n, ast.Call) and ast.unparse(n.func) == "self._load_state":
+            return "self._load_state()"
+        return None
+
+    def mem_read(n):
+        # a read of the shared object that is later written back: `self._state` on the right-hand side / as a value
+        if isinstance(n, ast.Attribute) and isinstance(n.ctx, ast.Load) and ast.unparse(n) == "self._state":
+            return "self._state"
+        return None
+
     obs = []
     obs += guarded_by(r, "workflows.context.state_store", "InMemoryStateStore", "self._lock", mem_write,
-                      yield_methods=("edit_state",))
+                      yield_methods=("edit_state",), is_read=mem_read)
     obs += guarded_by(r, "llama_agents.server._store.sqlite.sqlite_state_store", "SqliteStateStore", "self._lock",
                       sql_write, exempt=("__init__", "_load_state", "_seed_from_serialized", "_copy_state_from_run",
                               "_write_in_memory_state"),
-                      yield_methods=("edit_state",))
+                      yield_methods=("edit_state",), is_read=sql_read)
     py = os.path.join(VERIF, ".venv", "bin", "python")
     scen = os.path.join(VERIF, "scenarios", "store_scenarios.py")
     evals = 0
